@@ -29,7 +29,8 @@ RULE = ("cases = (subcommand tum/kitti/euroc, 1..3 trajectory files [+ reference
         "set, transformation file npy/txt/json holding an SE(3) or Sim(3) matrix); evo.main_traj.run(parser().parse_args(argv)) is "
         "executed in-process in a scratch directory; (0) on the exact-grid stream (dyadic stamps/positions, rational step lengths, 90-degree "
         "rotations, thresholds hit exactly) the exported files are compared with trajRun of the Lean driver on the rational inputs "
-        "(kept / paired poses exactly via count and stamps, numbers to 1e-9; external numerics certified from evo's run); (1) the plan returned by the Lean driver for the same option set is interpreted "
+        "(kept / paired poses exactly via count and stamps, numbers to 1e-9; external numerics certified from evo's run); --merge inputs "
+        "sharing exact timestamps across / within files are in both streams (pose counts exactly, rows of equal stamp as multisets); (1) the plan returned by the Lean driver for the same option set is interpreted "
         "with evo's core API on freshly read copies and every exported *.tum / *.kitti file must be bit-identical (die / exception "
         "class must agree as well); (2) oracle: an independent numpy re-computation of the documented pipeline (positions, stamps, "
         "rotation validity) must agree with the exported files to 1e-6; option sets: greedy pairwise-covering array over 20 factors "
@@ -90,7 +91,7 @@ def gen_base(r, n):
     return out
 
 
-def gen_traj(r, base, sub, noise, drop, rigid=None, scale=1.0):
+def gen_traj(r, base, sub, noise, drop, rigid=None, scale=1.0, jitter=True):
     stamps, pos, quat = [], [], []
     for k, (t, p, R) in enumerate(base):
         if sub != "kitti" and drop and 0 < k < len(base) - 1 and r.random() < drop:
@@ -99,7 +100,7 @@ def gen_traj(r, base, sub, noise, drop, rigid=None, scale=1.0):
         R2 = R @ rot_axis(r.randrange(3), r.gauss(0, noise))
         if rigid is not None:
             p2, R2 = rigid[0] @ p2 + rigid[1], rigid[0] @ R2
-        stamps.append(t + (r.uniform(-1, 1) / 1024 if sub == "tum" and noise else 0.0))
+        stamps.append(t + (r.uniform(-1, 1) / 1024 if sub == "tum" and noise and jitter else 0.0))
         pos.append([float(x) for x in p2])
         quat.append(rot_to_quat(R2))
     return {"stamps": stamps, "pos": pos, "quat": quat}
@@ -172,15 +173,41 @@ def covering(r, budget):
     return out, len(allp)
 
 
+def tie_kind(r, o, grid=False):
+    """merged inputs that share exact timestamps: segment k+1 starts at the last stamp of segment k ('boundary'), recordings
+    overlapping on the same clock grid ('overlap'), a duplicate stamp inside one file ('within').  Only where the order among
+    equal stamps cannot influence a later step (no association / alignment / propagated transformation), since argsort is not stable."""
+    if not o["merge"] or o["sub"] == "kitti" or o["sync"] or o["align"] or o["correct_scale"] or o["align_origin"]:
+        return None
+    if o["propagate"] and o["tf_side"] in ("right", "both"):       # a propagated transformation depends on the row order
+        return None
+    if grid and o["plane"]:       # trajRun takes the projected headings as a per-row certificate in evo's row order
+        return None
+    return r.choice([None, "boundary", "boundary", "overlap", "within"])
+
+
+def merge_shift(ties, k, n):
+    if ties == "boundary":
+        return k * (n - 1) / 8
+    if ties == "overlap":
+        return k * (n // 2) / 8
+    return (k * n + k) / 8 + (k / 64 if ties is None else 0.0)
+
+
 def build_case(r, o):
     sub = o["sub"]
     n = r.randint(8, 30)
     base = gen_base(r, n)
     trajs = []
+    ties = o.get("ties_force") or tie_kind(r, o)
     for k in range(o["ntraj"]):
         rigid = (rot_axis(2, r.uniform(-1, 1)) @ rot_axis(0, r.uniform(-0.3, 0.3)), np.array([r.uniform(-2, 2) for _ in range(3)]))
-        b = base if (o["merge"] is False or sub == "kitti") else [(t + (k * n + k) / 8 + k / 64, p, R) for t, p, R in base]
-        trajs.append(gen_traj(r, b, sub, 0.02, 0.15 if r.random() < 0.3 else 0.0, rigid, r.choice([1.0, 1.0, 1.3])))
+        shift = merge_shift(ties, k, n)
+        b = base if (o["merge"] is False or sub == "kitti") else [(t + shift, p, R) for t, p, R in base]
+        trajs.append(gen_traj(r, b, sub, 0.02, 0.15 if r.random() < 0.3 else 0.0, rigid, r.choice([1.0, 1.0, 1.3]), jitter=not ties))
+    if ties == "within" and trajs and len(trajs[0]["stamps"]) > 3:      # a duplicate stamp inside one file
+        j = r.randrange(1, len(trajs[0]["stamps"]) - 1)
+        trajs[0]["stamps"][j + 1] = trajs[0]["stamps"][j]
     ref = None
     if o["ref"] != "none":
         ref = gen_traj(r, base, sub, 0.0, 0.1 if r.random() < 0.3 else 0.0)
@@ -189,7 +216,7 @@ def build_case(r, o):
         tf = {"side": o["tf_side"], "form": o["tf_form"], **rand_tf(r, o["tf_kind"])}
         if o["tf_side"] == "both":
             tf["other"] = rand_tf(r, r.choice(["se3", "sim3"]))
-    case = {"sub": sub, "trajs": trajs, "ref": ref, "ref_listed": o["ref"] == "listed" and ref is not None,
+    case = {"ties": ties, "sub": sub, "trajs": trajs, "ref": ref, "ref_listed": o["ref"] == "listed" and ref is not None,
             "downsample": o["downsample"], "motion_filter": o["motion_filter"], "merge": o["merge"], "t_offset": o["t_offset"],
             "sync": o["sync"], "align": o["align"], "correct_scale": o["correct_scale"], "n_to_align": o["n_to_align"],
             "align_origin": o["align_origin"], "t_max_diff": o["t_max_diff"], "tf": tf, "invert": o["invert"],
@@ -218,6 +245,7 @@ def build_grid_case(r, o):
     if exact_lengths:
         o = dict(o, downsample=None)
     n = r.randint(6, 11)
+    ties = o.get("ties_force") or tie_kind(r, o, grid=True)
     t0 = r.choice([0.0, 100.0])
     p = np.array([r.randint(-8, 8) / 4 for _ in range(3)])
     base = []
@@ -243,8 +271,12 @@ def build_grid_case(r, o):
     trajs = []
     for k in range(o["ntraj"]):
         rigid = (grid_rot(r), np.array([r.randint(-8, 8) / 2 for _ in range(3)]))
-        b = base if (o["merge"] is False or sub == "kitti") else [(t + (k * n + k) / 8, q, Rk) for t, q, Rk in base]
+        b = base if (o["merge"] is False or sub == "kitti") else [(t + (merge_shift(ties, k, n) if ties else (k * n + k) / 8), q, Rk)
+                                                                     for t, q, Rk in base]
         trajs.append(mk(b, 0.2 if (r.random() < 0.4 and not exact_lengths) else 0.0, rigid, r.choice([1.0, 1.0, 2.0])))
+    if ties == "within" and trajs and len(trajs[0]["stamps"]) > 3:
+        j = r.randrange(1, len(trajs[0]["stamps"]) - 1)
+        trajs[0]["stamps"][j + 1] = trajs[0]["stamps"][j]
     ref = mk(base, 0.15 if (r.random() < 0.3 and not exact_lengths) else 0.0) if o["ref"] != "none" else None
     tf = None
     if o["tf_side"]:
@@ -254,7 +286,7 @@ def build_grid_case(r, o):
         tf = {"side": o["tf_side"], "form": o["tf_form"], **gtf(o["tf_kind"])}
         if o["tf_side"] == "both":
             tf["other"] = gtf(r.choice(["se3", "sim3"]))
-    return {"kind": "grid", "sub": sub, "trajs": trajs, "ref": ref, "ref_listed": o["ref"] == "listed" and ref is not None,
+    return {"kind": "grid", "ties": ties, "sub": sub, "trajs": trajs, "ref": ref, "ref_listed": o["ref"] == "listed" and ref is not None,
             "downsample": o["downsample"], "motion_filter": o["motion_filter"], "merge": o["merge"], "t_offset": o["t_offset"],
             "sync": o["sync"], "align": o["align"], "correct_scale": o["correct_scale"], "n_to_align": o["n_to_align"],
             "align_origin": o["align_origin"], "t_max_diff": o["t_max_diff"], "tf": tf, "invert": o["invert"],
@@ -290,6 +322,11 @@ def gen_cases(ctx):
     c["tf"].update({"quat": [1.0, 0.0, 0.0, 0.0], "t": [0.0, 0.0, 0.0], "scale": 2.0})
     yield c
     yield build_case(r, dict(base, ref="file", t_offset=0.25, sync=True, t_max_diff=0.3))
+    # merged inputs sharing exact timestamps (segment 2 starts where segment 1 ends; overlapping recordings; duplicate inside a file)
+    for k, kind in enumerate(["boundary", "overlap", "within", "boundary"]):
+        o = dict(base, sub=["tum", "euroc", "tum", "euroc"][k], ntraj=[2, 3, 2, 2][k], merge=True, ties_force=kind, save=["tum", "both", "tum", "kitti"][k])
+        yield build_case(r, o)
+        yield build_grid_case(r, dict(o, tf_form="npy", tf_kind="se3", t_max_diff=0.01))
     c = build_case(r, dict(base, ref="listed", downsample=5, plane="xy"))      # the only file is the reference
     c["trajs"] = []
     yield c
@@ -689,6 +726,11 @@ def judge_run(ctx, case, evo, interp, out):
         if len(got["p"]) != len(mposes):
             ctx.mismatch(case, f"{fname}: number of exported poses differs from trajRun", len(got["p"]), len(mposes))
             return
+        if case["merge"] and mst is not None and len(mst) == len(mposes):
+            og = tie_order(got["t"] if got["t"] is not None else sorted(float(x) for x in mst), got["p"])
+            om = tie_order([float(x) for x in mst], [[float(mp[3]), float(mp[7]), float(mp[11])] for mp in mposes])
+            got = {k: ([v[i] for i in og] if v is not None else None) for k, v in got.items()}
+            mst, mposes = [mst[i] for i in om], [mposes[i] for i in om]
         if got["t"] is not None and [frac(x) for x in got["t"]] != mst:
             ctx.mismatch(case, f"{fname}: exported timestamps differ from trajRun (kept / paired poses)", got["t"][:6],
                          [float(x) for x in (mst or [])[:6]])
@@ -805,11 +847,9 @@ def o_motion_filter(tr, dist, ang_deg):
 
 
 def o_merge(trs):
-    t = np.concatenate([x["t"] for x in trs])
-    if len(set(t.tolist())) != len(t):
-        raise Skip("equal stamps in merge")
+    t = np.concatenate([x["t"] for x in trs])       # every input row, ordered by time (ties: any order, compared as multisets)
     T = [M for x in trs for M in x["T"]]
-    order = np.argsort(t)
+    order = np.argsort(t, kind="stable")
     return {"t": t[order], "T": [T[i] for i in order], "n": len(T)}
 
 
@@ -976,6 +1016,13 @@ def parse_export(name, data):
     return {"t": None, "p": [[r[3], r[7], r[11]] for r in rows], "R": [[r[0:3], r[4:7], r[8:11]] for r in rows]}
 
 
+def tie_order(stamps, positions):
+    """permutation that sorts rows by (stamp, position): rows with equal stamps become comparable as multisets"""
+    if stamps is None:
+        return list(range(len(positions)))
+    return sorted(range(len(positions)), key=lambda i: (stamps[i], [round(float(x), 6) for x in positions[i]]))
+
+
 def compare_export(case, evo, want):
     """first disagreement (clause, detail) between the exported files and one documented result, or None"""
     exts = ([".tum"] if case["save_tum"] else []) + ([".kitti"] if case["save_kitti"] else [])
@@ -994,7 +1041,14 @@ def compare_export(case, evo, want):
         if no_processing:
             clause = "no-options-exported-equals-input"
         if len(got["p"]) != w["n"]:
-            return (clause, f"{fname}: {len(got['p'])} poses exported, expected {w['n']}")
+            return ("merged-export-holds-every-input-pose" if case["merge"] and who == "trajectory" else clause,
+                    f"{fname}: {len(got['p'])} poses exported, expected {w['n']}")
+        if case["merge"] and w["t"] is not None and len(got["p"]) == w["n"]:
+            # a KITTI export carries no stamps: both sides are time-ordered, so the groups of equal stamps are the same index ranges
+            og = tie_order(got["t"] if got["t"] is not None else sorted(w["t"]), got["p"])
+            ow = tie_order(list(w["t"]), [M[:3, 3] for M in w["T"]])
+            got = {k: ([v[i] for i in og] if v is not None else None) for k, v in got.items()}
+            w = {"t": np.array([w["t"][i] for i in ow]), "T": [w["T"][i] for i in ow], "n": w["n"]}
         P = np.array([M[:3, 3] for M in w["T"]])
         G = np.array(got["p"])
         tol = 0.0 if no_processing else 1e-6 * (1 + np.abs(P).max())
@@ -1109,6 +1163,8 @@ def judge(ctx, case, evo, interp, aux, outs):
     # ---- bookkeeping
     ctx.count("dist", "sub:" + case["sub"])
     ctx.count("dist", f"ntraj:{len(case['trajs'])}")
+    if case.get("ties"):
+        ctx.count("dist", "merge-shared-stamps:" + case["ties"])
     ctx.count("dist", "ref:" + ("none" if case["ref"] is None else "listed" if case["ref_listed"] else "file"))
     if case["tf"]:
         ctx.count("dist", "tf:" + case["tf"]["form"] + ":" + ("se3" if case["tf"]["scale"] == 1.0 else "sim3") + ":" + case["tf"]["side"])
@@ -1194,7 +1250,8 @@ def check(ctx):
                                      "trajRun: Umeyama triple, motion-filter lengths/angles, sim3_scale and projected headings are certified parameters taken "
                                      "from evo's own run; compared with the CLI on the exact-grid stream only",
                                      "bag / bag2 subcommands, plotting and --save_table are outside this property"],
-                       assumptions=["input files have distinct stems; timestamps of merged inputs are distinct",
+                       assumptions=["input files have distinct stems; merged inputs may share timestamps (rows with equal stamps are compared as multisets) "
+                                    "when no association / alignment / propagated transformation follows",
                                     "oracle decisions within 1e-9 of a filter / association threshold are skipped"])
 
 
